@@ -21,6 +21,12 @@ LEVEL_TEXT = {
 }
 
 
+def shared_note(pid):
+    from rules import imports
+    parts = ["%s (%s)" % (m.upper(), ", ".join(a) if a else "all clauses") for m, a, _ in imports.IMPORTS.get(pid, [])]
+    return (" Also runs, as necessary conditions of this property, the shared clauses of " + "; ".join(parts) + " (rules/imports.py).") if parts else ""
+
+
 def main():
     props = [json.loads(l) for l in open(os.path.join(HERE, "properties.jsonl"))]
     checks, na, claimed = [], [], []
@@ -39,7 +45,8 @@ def main():
                 "engine": "exmex-facts+rules",
                 "level_claimed": {"category": mod.LEVEL, "text": LEVEL_TEXT.get(pid) or getattr(mod, "LEVEL_TEXT", mod.EXPLANATION[:400]),
                                   "design_ref": "DESIGN.md section 4, " + pid},
-                "level_note": "Decides the structural clauses named in the evidence file's explanation, not the whole behaviour. Trusted: " + "; ".join(getattr(mod, "TRUSTED", [])),
+                "level_note": "Decides the structural clauses named in the evidence file's explanation, not the whole behaviour."
+                              + shared_note(pid) + " Trusted: " + "; ".join(getattr(mod, "TRUSTED", [])),
                 "technique": mod.TECHNIQUE,
             })
         else:
